@@ -276,3 +276,10 @@ CHECKS["C15"]["note"] = CHECKS["C15"]["note"] + ' Added after the second seeding
 CHECKS["C16"]["note"] = CHECKS["C16"]["note"] + ' Added after the second seeding round: R16.8 (every success return is after os.replace or is the corrections_only dry run).'
 CHECKS["C18"]["note"] = CHECKS["C18"]["note"] + ' Added after the second seeding round: R18.8 (the header of a nested META block is emitted unconditionally: present-but-empty is not absent).'
 CHECKS["C19"]["note"] = CHECKS["C19"]["note"] + ' Added after the second seeding round: R19.8 (no expanduser/expandvars/normpath/realpath/abspath on user paths in tools, CLI and file_ops).'
+
+# third seeding round (defects hidden in refactorings) and the repaired-twin precision runs
+CHECKS["C02"]["note"] = CHECKS["C02"]["note"] + ' Added after the third seeding round: R02.10 (the read of <node>.leading_comments is on every path to a return of emit_assignment / emit_block / emit_section).'
+CHECKS["C04"]["note"] = CHECKS["C04"]["note"] + ' A STRING branch in which nothing can decode is judged as the identity decoder (R04.1); a pattern branch none of whose value bindings can be a number is R04.5 (both used to end the run with exit 2).'
+CHECKS["C10"]["note"] = CHECKS["C10"]["note"] + ' R10.3 additionally demands that the empty error list behind VALIDATED comes from a pass made with the same `strict` argument as the pass that judged the document; a filtered copy of the error list (severity != warning) is the deciding list.'
+CHECKS["C14"]["note"] = CHECKS["C14"]["note"] + ' Added after the third seeding round: R14.8 (no key is dropped from an exported mapping because of its converted value, e.g. `if v is not None`).'
+CHECKS["C17"]["note"] = CHECKS["C17"]["note"] + ' Added after the third seeding round: R17.10 (the temp file is removed on every path that leaves after a failed re-check); path facts are three-valued (None-or-error locals, text read is never None, base_hash truthiness).'
